@@ -253,6 +253,11 @@ def gen_fn(g, header_words, block_lines):
         body = inner
         sections = [s for s in sections if not (s[0] == "rules")]
     sig = name_return(sig)
+    sigtxt = emit_trim(sig)
+    sigtxt2 = re.sub(r"^pub\s*\([^)]*\)\s*", "pub ", sigtxt)
+    if not sigtxt2.startswith("pub "):
+        sigtxt2 = "pub " + sigtxt2
+    sig = lex(sigtxt2)
     body = apply_sections(body, sections, qual, g)
     spec = "\n".join(text for kind, args, text in sections if kind == "spec")
     attrs = [text for kind, args, text in sections if kind == "attr" and not text.startswith("sig ")]
@@ -265,7 +270,10 @@ def gen_fn(g, header_words, block_lines):
     g.add(emit_trim(sig))
     if spec.strip():
         g.add(spec, fn=shown)
-    g.add(emit_body(body).lstrip(), fn=shown)
+    if g.stub:
+        g.add("{ unimplemented!() }")
+    else:
+        g.add(emit_body(body).lstrip(), fn=shown)
     hi = g.cur_line() - 1
     if g.stub:
         return
@@ -289,7 +297,13 @@ def gen_adt(g, kind, words):
             if keep is not None and nm not in keep:
                 dropped.append(nm)
                 continue
-            out.append(emit_trim(fl))
+            txt = emit_trim(fl)
+            if kind == "struct":
+                # visibility is erased (single-file crate): every field `pub`
+                txt = re.sub(r"^pub\s*\([^)]*\)\s*", "", txt)
+                if not txt.startswith("pub "):
+                    txt = "pub " + txt
+            out.append(txt)
         if dropped:
             g.dropped.append("%s %s: fields dropped by projection: %s" % (kind, name, ", ".join(dropped)))
         derive = opts.get("derive")
